@@ -17,12 +17,12 @@ pub static DEF: PropDef = PropDef {
     assumptions: &["I/O errors are outside the property and not injected here", "a candidate failing call that the writer accepts is not a C19 case (acceptance is C11's subject); such positions are counted as vacuous"],
     cases_quick: 80_000,
     cases_thorough: 500_000,
-    floors: &[("insertions_compared", 8000), ("distinct_nontrivial", 60), ("kinds_misplaced-leaf", 200), ("kinds_width-overflow-leaf", 200), ("kinds_wrong-end", 200), ("kinds_full-invalid-child", 200), ("kinds_unknown-on-leaf", 200), ("kinds_bad-raw-id", 200), ("kinds_full-width-overflow", 100), ("kinds_end-size-overflow", 100)],
+    floors: &[("insertions_compared", 8000), ("distinct_nontrivial", 60), ("kinds_misplaced-leaf", 200), ("kinds_width-overflow-leaf", 200), ("kinds_wrong-end", 200), ("kinds_full-invalid-child", 200), ("kinds_unknown-on-leaf", 200), ("kinds_bad-raw-id", 200), ("kinds_full-width-overflow", 100), ("kinds_end-size-overflow", 100), ("kinds_flush-cannot-close-outer", 100)],
     exhaustive_note: Some("insertion positions 0..=len(H) of each generated history (all of them in thorough; all of them for histories of <=14 calls in quick)"),
     run,
 };
 
-pub const KINDS: [&str; 10] = ["misplaced-leaf", "misplaced-master-start", "width-overflow-leaf", "full-width-overflow", "unknown-on-leaf", "bad-raw-id", "wrong-end", "full-invalid-child", "several-in-a-row", "end-size-overflow"];
+pub const KINDS: [&str; 11] = ["misplaced-leaf", "misplaced-master-start", "width-overflow-leaf", "full-width-overflow", "unknown-on-leaf", "bad-raw-id", "wrong-end", "full-invalid-child", "several-in-a-row", "end-size-overflow", "flush-cannot-close-outer"];
 
 /// chain of open masters (id, known?) after calls[..p]
 pub fn shadow_at(calls: &[WCall], p: usize) -> Vec<(u64, bool)> {
@@ -42,6 +42,46 @@ pub fn shadow_at(calls: &[WCall], p: usize) -> Vec<(u64, bool)> {
 
 fn sample_value(rng: &mut Rng, e: &Elem) -> Item {
     gen::gen_value(rng, e.id, e.ty, false)
+}
+
+/// (accepted calls to insert first, failing calls, calls that follow in both histories)
+pub fn make_failing3(rng: &mut Rng, spec: &Spec, kind: &str, chain: &[(u64, bool)]) -> Option<(Vec<WCall>, Vec<WCall>, Vec<WCall>)> {
+    if kind == "flush-cannot-close-outer" {
+        // flush() is a writer call too: a master whose 1- or 2-byte size field cannot describe its content is open, a
+        // master nested in it (known or unknown size, possibly with a child) is open as well; flush() has to close the
+        // inner one first and is then rejected at the outer one ("size not representable in the requested width").
+        // Both histories go on with the End of the inner master (and what the original history holds).
+        let ids: Vec<u64> = chain.iter().map(|x| x.0).collect();
+        let allowed: Vec<&Elem> = spec.allowed_under(&ids);
+        let c: Vec<&&Elem> = allowed.iter().filter(|e| e.ty == Ty::Master).collect();
+        if c.is_empty() {
+            return None;
+        }
+        let e = **rng.pick(&c);
+        let mut ids2 = ids.clone();
+        ids2.push(e.id);
+        let subs: Vec<&Elem> = spec.allowed_under(&ids2).into_iter().filter(|x| x.ty == Ty::Master).collect();
+        if subs.is_empty() {
+            return None;
+        }
+        let sub = *rng.pick(&subs);
+        let (w, n) = *rng.pick(&[(1usize, 125usize), (1, 200), (2, 16381)]);
+        let mut prefix = vec![WCall::Write(Item::Start(e.id), SizeOpt::Width(w)), WCall::Write(Item::B(VOID_ID, rng.bytes(n)), SizeOpt::Default), WCall::Write(Item::Start(sub.id), if rng.chance(1, 3) { SizeOpt::Unknown } else { SizeOpt::Default })];
+        ids2.push(sub.id);
+        let leaves: Vec<&Elem> = spec.allowed_under(&ids2).into_iter().filter(|x| x.ty != Ty::Master).collect();
+        if !leaves.is_empty() && rng.chance(1, 2) {
+            let l: &Elem = *rng.pick(&leaves);
+            prefix.push(WCall::Write(sample_value(rng, l), SizeOpt::Default));
+        }
+        let mut suffix = Vec::new();
+        if !leaves.is_empty() && rng.chance(1, 2) {
+            let l: &Elem = *rng.pick(&leaves);
+            suffix.push(WCall::Write(sample_value(rng, l), SizeOpt::Default));
+        }
+        suffix.push(WCall::Write(Item::End(sub.id), SizeOpt::Default));
+        return Some((prefix, vec![WCall::Flush], suffix));
+    }
+    make_failing2(rng, spec, kind, chain).map(|(a, b)| (a, b, vec![]))
 }
 
 /// (accepted calls to insert first, failing calls)
@@ -297,7 +337,7 @@ fn run(c: &mut Case) {
     let positions: Vec<usize> = if c.tier == Tier::Thorough || h.len() <= 14 { (0..=h.len()).collect() } else { (0..8).map(|_| c.rng.urange(0, h.len())).collect() };
     for p in positions {
         let chain = shadow_at(&h, p);
-        let (prefix, failing) = match make_failing2(&mut c.rng, &doc.spec, kind, &chain) {
+        let (prefix, failing, suffix) = match make_failing3(&mut c.rng, &doc.spec, kind, &chain) {
             Some(f) => f,
             None => {
                 c.count("vacuous_no_candidate");
@@ -311,6 +351,7 @@ fn run(c: &mut Case) {
         } else {
             let mut hb: Vec<WCall> = h[..p].to_vec();
             hb.extend(prefix.iter().cloned());
+            hb.extend(suffix.iter().cloned());
             hb.extend(h[p..].iter().cloned());
             base_local = run_calls(&hb, ScriptedWrite::new());
             if base_local.results[..p + prefix.len()].iter().any(|r| !r.is_ok()) {
